@@ -50,6 +50,7 @@ TToInt ==
   /\ Ev.r = "ok" \/ Raised(Ev.r)
   /\ ClassInteger(Ev.s) = "reject" => Raised(Ev.r)
   /\ (ClassInteger(Ev.s) = "strict" /\ IntValue(Ev.s) # NA) => Ev.r = "ok"
+  /\ TooBigForInt(Ev.s) => Raised(Ev.r)          \* no int is the value the grammar assigns
   /\ IntValue(Ev.s) # NA => Agrees(lastInt, Ev.s, Ev.r = "ok")
   /\ (Ev.r = "ok" /\ IntValue(Ev.s) # NA) => Ev.v = IntValue(Ev.s)
   /\ UNCHANGED vars
